@@ -26,6 +26,21 @@ type faultyRepo struct {
 	def.Repository
 	failNext bool
 	calls    int
+	// the core repository itself reports an error for its next MarkAsDispatched: 1 before, 2 after taking effect
+	// (pipeline harness, -core-faults: the observable wrapper sees the failure, not only the scheduler)
+	markDispFault atomic.Int32
+}
+
+func (f *faultyRepo) MarkAsDispatched(ctx context.Context, id string) error {
+	k := f.markDispFault.Swap(0)
+	if k == 1 {
+		return errInjected
+	}
+	err := f.Repository.MarkAsDispatched(ctx, id)
+	if k == 2 && err == nil {
+		return errInjected
+	}
+	return err
 }
 
 var errInjected = errors.New("injected GetNext failure")
